@@ -1,7 +1,24 @@
 //@@ unit props=C02,C16,C17,C20,C14,C10,C06
-// Unit xlswb: the record dispatch of src/xls.rs `Xls::parse_workbook` (verbatim text).
+// Unit xlswb: the record dispatch `Xls::parse_workbook` of src/xls.rs (verbatim text, one 220-line function).
+//
+// What is under contract here is the WIRING: which record id reaches which record walker, with which arguments, in which order the
+// results are accumulated, what is stored under which sheet name, and the FILEPASS / Date1904 / BoundSheet8 handling. The walkers
+// themselves (parse_number, parse_rk, parse_mul_rk, parse_bool_err, parse_label, parse_label_sst, parse_string, parse_merge_cells,
+// parse_sheet_metadata, parse_bof, parse_xf, parse_format, parse_sst, parse_formula_value, parse_formula, parse_dimensions,
+// RecordIter::next, Range::from_sparse, Cfb::get_stream, builtin_format_by_code) are ASSUMED here, each as "returns the value of an
+// uninterpreted function of its arguments" (they are deterministic functions); what those values are is proved in units
+// xlsrec / xlsstr / range / cfb / formats / xlsf.
+//
+// Specification (from [MS-XLS] 2.1.4, 2.1.7.20 and the property texts):
+//   recs(s)             the records of the substream that starts at s, up to (excluding) its EOF record 0x000A
+//   g_fold(recs, ..)    meaning of the workbook-globals substream: code page / BIFF version in force, BoundSheet8 list in stream order,
+//                       FORMAT table, XF list, SST
+//   has_1904(recs)      a Date1904 record with value 1 occurs
+//   fp(recs)            the substream carries a FILEPASS record at a legal position (only BOF / WriteProtect before it)
+//   s_fold(recs, cx)    meaning of a sheet substream: cells / formulas / merged regions as the concatenation, in record order, of each
+//                       record's contribution according to the dispatch table; fmla_pos = cell of the last FORMULA record
 #![feature(allocator_api)]
-#![allow(unused_imports, dead_code, unused_variables, unused_mut, unused_assignments, unexpected_cfgs)]
+#![allow(unused_imports, dead_code, unused_variables, unused_mut, unused_assignments, unexpected_cfgs, deprecated)]
 use vstd::prelude::*;
 use std::io::{Read, Seek};
 use std::marker::PhantomData;
@@ -20,7 +37,9 @@ pub mod cfb {
     pub struct CfbError { _opaque: u8 }
 }
 use cfb::CfbError;
+/// stand-in for cfb::XlsEncoding (wraps an encoding_rs table; only handed through to the string decoders)
 pub struct XlsEncoding { _opaque: u8 }
+/// stand-in for cfb::Cfb (the parsed compound file; only handed to get_stream)
 pub struct Cfb { _opaque: u8 }
 
 //@@ item src/xls.rs enum XlsError cfg_off=picture
@@ -47,6 +66,7 @@ pub struct Cfb { _opaque: u8 }
 //@@ item src/xls.rs struct Bof
 //@@ item src/xls.rs enum Biff keep_attrs
 impl CellType for Data {}
+impl CellType for String {}
 // TRUSTED: `#[derive(Clone)]` on `struct Sheet` is a field-wise clone: the copy equals the original.
 impl Clone for Sheet {
     #[verifier::external_body]
@@ -54,7 +74,6 @@ impl Clone for Sheet {
         ensures r == *self,
     { Sheet { name: self.name.clone(), typ: self.typ, visible: self.visible } }
 }
-impl CellType for String {}
 
 //@@ include common/bytes.rs
 
@@ -72,8 +91,9 @@ pub assume_specification<T, A: std::alloc::Allocator, I: IntoIterator<Item = T>>
 // TRUSTED: `Option<T>` as IntoIterator yields its value once, or nothing (core::option documentation)
 #[verifier::external_body]
 pub proof fn axiom_option_items<T>(o: Option<T>)
-    ensures iter_items::<T, Option<T>>(o) == (match o { Some(x) => seq![x], None => Seq::<T>::empty() }),
+    ensures iter_items::<T, Option<T>>(o) == opt_seq(o),
 {}
+pub open spec fn opt_seq<T>(o: Option<T>) -> Seq<T> { match o { Some(x) => seq![x], None => Seq::<T>::empty() } }
 // TRUSTED: Option::map_or (core::option documentation): the default for None, f(value) for Some
 pub assume_specification<T, U, F: FnOnce(T) -> U>[ Option::<T>::map_or ](o: Option<T>, d: U, f: F) -> (r: U)
     requires o matches Some(v) ==> call_requires(f, (v,)),
@@ -82,48 +102,31 @@ pub assume_specification<T, U, F: FnOnce(T) -> U>[ Option::<T>::map_or ](o: Opti
 pub assume_specification<T, E, F: FnOnce(E) -> T>[ Result::<T, E>::unwrap_or_else ](x: Result<T, E>, op: F) -> (r: T)
     requires x matches Err(e) ==> call_requires(op, (e,)),
     ensures x matches Ok(v) ==> r == v, x matches Err(e) ==> call_ensures(op, (e,), r);
+// TRUSTED: `String: Ord` is a lawful total order (lexicographic byte order, alloc::string documentation); vstd's BTreeMap
+// specifications are conditional on the key type obeying the comparison laws
+#[verifier::external_body]
+pub proof fn axiom_string_obeys_cmp()
+    ensures vstd::laws_cmp::obeys_cmp::<String>(),
+{}
 
+// R4: opaque stand-in for `format!(..)` results (no specification: nothing is claimed about such strings)
 #[verifier::external_body] fn verif_opaque_string() -> String { String::new() }
 
+// TRUSTED: expansion of `from_err!(crate::cfb::CfbError, XlsError, Cfb)` (src/xls.rs): wraps the error in the Cfb variant
+impl vstd::std_specs::convert::FromSpecImpl<CfbError> for XlsError {
+    open spec fn obeys_from_spec() -> bool { true }
+    open spec fn from_spec(e: CfbError) -> XlsError { XlsError::Cfb(e) }
+}
 impl From<CfbError> for XlsError { fn from(e: CfbError) -> XlsError { XlsError::Cfb(e) } }
+// TRUSTED: the same expansion as seen by the `?` operator (vstd models the conversion in `?` by the uninterpreted relation spec_from)
+#[verifier::external_body]
+pub broadcast proof fn axiom_from_cfb(e: CfbError, r: XlsError)
+    ensures #[trigger] vstd::std_specs::control_flow::spec_from::<XlsError, CfbError>(e, r) ==> r == XlsError::Cfb(e),
+{}
 
-impl Cfb {
-    #[verifier::external_body]
-    pub fn get_stream<R: Read + Seek>(&mut self, name: &str, r: &mut R) -> Result<Vec<u8>, CfbError> { unimplemented!() }
-}
-impl XlsEncoding {
-    #[verifier::external_body]
-    pub fn from_codepage(codepage: u16) -> Result<XlsEncoding, CfbError> { unimplemented!() }
-}
-
-#[verifier::external_body] fn parse_bof(r: &mut Record<'_>) -> Result<Bof, XlsError> { unimplemented!() }
-#[verifier::external_body] fn parse_sheet_metadata(r: &mut Record<'_>, encoding: &XlsEncoding, biff: Biff) -> Result<(usize, Sheet), XlsError> { unimplemented!() }
-#[verifier::external_body] fn parse_number(r: &[u8], formats: &[CellFormat], is_1904: bool) -> Result<Cell<Data>, XlsError> { unimplemented!() }
-#[verifier::external_body] fn parse_bool_err(r: &[u8]) -> Result<Cell<Data>, XlsError> { unimplemented!() }
-#[verifier::external_body] fn parse_rk(r: &[u8], formats: &[CellFormat], is_1904: bool) -> Result<Cell<Data>, XlsError> { unimplemented!() }
-#[verifier::external_body] fn parse_merge_cells(r: &[u8], merge_cells: &mut Vec<Dimensions>) -> Result<(), XlsError> { unimplemented!() }
-#[verifier::external_body] fn parse_mul_rk(r: &[u8], cells: &mut Vec<Cell<Data>>, formats: &[CellFormat], is_1904: bool) -> Result<(), XlsError> { unimplemented!() }
-#[verifier::external_body] fn parse_string(r: &[u8], encoding: &XlsEncoding, biff: Biff) -> Result<String, XlsError> { unimplemented!() }
-#[verifier::external_body] fn parse_label(r: &[u8], encoding: &XlsEncoding, biff: Biff) -> Result<Option<Cell<Data>>, XlsError> { unimplemented!() }
-#[verifier::external_body] fn parse_label_sst(r: &[u8], strings: &[String]) -> Result<Option<Cell<Data>>, XlsError> { unimplemented!() }
-#[verifier::external_body] fn parse_dimensions(r: &[u8]) -> Result<Dimensions, XlsError> { unimplemented!() }
-#[verifier::external_body] fn parse_sst(r: &mut Record<'_>, encoding: &XlsEncoding) -> Result<Vec<String>, XlsError> { unimplemented!() }
-#[verifier::external_body] fn parse_xf(r: &Record<'_>) -> Result<u16, XlsError> { unimplemented!() }
-#[verifier::external_body] fn parse_format(r: &mut Record<'_>, encoding: &XlsEncoding) -> Result<(u16, CellFormat), XlsError> { unimplemented!() }
-#[verifier::external_body] fn read_unicode_string_no_cch(encoding: &XlsEncoding, buf: &[u8], len: &usize, s: &mut String) { unimplemented!() }
-#[verifier::external_body] fn parse_defined_names(rgce: &[u8]) -> Result<(Option<usize>, String), XlsError> { unimplemented!() }
-#[verifier::external_body] fn parse_formula(rgce: &[u8], sheets: &[String], names: &[(String, String)], xtis: &[Xti], encoding: &XlsEncoding) -> Result<String, XlsError> { unimplemented!() }
-#[verifier::external_body] fn parse_formula_value(r: &[u8]) -> Result<Option<Data>, XlsError> { unimplemented!() }
-#[verifier::external_body] pub fn builtin_format_by_code(code: u16) -> CellFormat { unimplemented!() }
-
-impl<T: CellType> Cell<T> {
-    #[verifier::external_body] pub fn new(position: (u32, u32), value: T) -> Cell<T> { unimplemented!() }
-}
-impl<T: CellType> Range<T> {
-    #[verifier::external_body] pub fn from_sparse(cells: Vec<Cell<T>>) -> Range<T> { unimplemented!() }
-}
-
-// ---- record framing ([MS-XLS] 2.1.4), as far as this unit needs it
+// =====================================================================================================================
+// Record framing ([MS-XLS] 2.1.4), as far as this unit needs it
+// =====================================================================================================================
 /// ghost view of a record: type, body, and the bodies of the Continue records attached to it
 pub struct RecV { pub typ: int, pub data: Seq<u8>, pub cont: Option<Seq<Seq<u8>>> }
 impl<'a> Record<'a> {
@@ -136,7 +139,6 @@ pub enum Step { End, Bad, Rec(RecV, Seq<u8>) }
 // TRUSTED: `RecordIter::next` is a deterministic function of the remaining stream; its value is characterised in unit xlsrec
 // (clauses C02.next_none_iff_empty, next_typ, next_data, next_framing, next_progress, next_err_is_eostream).
 pub uninterp spec fn rec_step(s: Seq<u8>) -> Step;
-pub open spec fn u16_at(r: Seq<u8>, o: int) -> int { r[o] as int + 256 * (r[o + 1] as int) }
 impl<'a> RecordIter<'a> {
     pub closed spec fn s(&self) -> Seq<u8> { self.stream@ }
 }
@@ -158,25 +160,517 @@ impl<'a> Iterator for RecordIter<'a> {
                 Step::Bad => (res matches Some(Err(XlsError::EoStream(_)))) && old(self).s().len() > 0,
                 Step::Rec(v, rest) => (res matches Some(Ok(r)) && r.v() == v) && final(self).s() == rest
                     && old(self).s().len() >= 4 + v.data.len() + rest.len()
-                    && v.typ == u16_at(old(self).s(), 0) && v.data == old(self).s().subrange(4, 4 + u16_at(old(self).s(), 2)),
+                    && v.typ == le16(old(self).s()) && v.data == old(self).s().subrange(4, 4 + le16(old(self).s().skip(2))),
             },
     { unimplemented!() }
 }
 
+/// the records of the substream that starts at `s`, up to (excluding) its EOF record ([MS-XLS] 2.4.103, type 0x000A), the end of the
+/// stream, or the first truncated record
+pub open spec fn recs(s: Seq<u8>) -> Seq<RecV>
+    decreases s.len()
+{
+    match rec_step(s) {
+        Step::Rec(v, rest) => if v.typ != 0x000A && rest.len() < s.len() { seq![v] + recs(rest) } else { Seq::empty() },
+        _ => Seq::empty(),
+    }
+}
+proof fn lemma_recs_step(s: Seq<u8>)
+    ensures
+        match rec_step(s) {
+            Step::Rec(v, rest) => if v.typ != 0x000A && rest.len() < s.len() { recs(s) == seq![v] + recs(rest) } else { recs(s) == Seq::<RecV>::empty() },
+            _ => recs(s) == Seq::<RecV>::empty(),
+        },
+{}
+
+// =====================================================================================================================
+// Assumed contracts of the record walkers: each returns the value of an uninterpreted function of its arguments.
+// =====================================================================================================================
+pub open spec fn not_password<T>(res: Result<T, XlsError>) -> bool { res is Err && !(res->Err_0 is Password) }
+pub open spec fn sviews(s: Seq<String>) -> Seq<Seq<char>> { Seq::new(s.len(), |i: int| s[i]@) }
+
+// TRUSTED (all of the following `uninterp spec fn`): the value the walker of that name returns on these arguments (None: it returns Err).
+// What the value is: unit xlsrec (C02.number_*, rk_*, boolerr_*, labelsst_*, label_*, string_*, mulrk_*, dimensions_*, C10.xf_*, C16.bof_*,
+// C16.sheet_*, C17.merge_*), unit xlsstr (C12/C19 parse_sst), unit xlsf / kani (parse_formula, parse_formula_value), unit formats (builtin_format_by_code).
+// "never Password": `XlsError::Password` is constructed at one place of src/xls.rs only, the FILEPASS arm of parse_workbook.
+pub uninterp spec fn codepage_enc(cp: int) -> Option<XlsEncoding>;
+pub uninterp spec fn builtin_fmt(code: u16) -> CellFormat;
+pub uninterp spec fn number_cell(r: Seq<u8>, formats: Seq<CellFormat>, is_1904: bool) -> Option<Cell<Data>>;
+pub uninterp spec fn rk_cell(r: Seq<u8>, formats: Seq<CellFormat>, is_1904: bool) -> Option<Cell<Data>>;
+pub uninterp spec fn boolerr_cell(r: Seq<u8>) -> Option<Cell<Data>>;
+pub uninterp spec fn label_cell(r: Seq<u8>, enc: XlsEncoding, biff: Biff) -> Option<Option<Cell<Data>>>;
+pub uninterp spec fn labelsst_cell(r: Seq<u8>, strings: Seq<String>) -> Option<Option<Cell<Data>>>;
+pub uninterp spec fn string_of(r: Seq<u8>, enc: XlsEncoding, biff: Biff) -> Option<String>;
+pub uninterp spec fn mulrk_cells(r: Seq<u8>, formats: Seq<CellFormat>, is_1904: bool) -> Seq<Cell<Data>>;
+pub uninterp spec fn formula_value(r: Seq<u8>) -> Option<Option<Data>>;
+pub uninterp spec fn formula_text(rgce: Seq<u8>, sheets: Seq<Seq<char>>, names: Seq<(String, String)>, xtis: Seq<Xti>, enc: XlsEncoding) -> Option<String>;
+pub uninterp spec fn dims_of(r: Seq<u8>) -> Option<Dimensions>;
+pub uninterp spec fn bof_of(v: RecV) -> Option<Biff>;
+pub uninterp spec fn sheet_of(v: RecV, enc: XlsEncoding, biff: Biff) -> Option<(usize, Sheet)>;
+pub uninterp spec fn format_of(v: RecV, enc: XlsEncoding) -> Option<(u16, CellFormat)>;
+pub uninterp spec fn xf_of(v: RecV) -> Option<u16>;
+pub uninterp spec fn sst_of(v: RecV, enc: XlsEncoding) -> Option<Seq<String>>;
+pub uninterp spec fn defined_name_of(rgce: Seq<u8>) -> Option<(Option<usize>, String)>;
+/// the bytes of the stream `name` of the compound file (None: no such stream / unreadable)
+// TRUSTED: unit cfb (C13.get_stream_reads_logical_stream, get_stream_frame): the result is a function of the compound file and the name,
+// and reading one stream does not change what any stream reads as (the reader's content is immutable; only its position moves)
+pub uninterp spec fn cfb_stream<R>(cfb: Cfb, reader: R, name: Seq<char>) -> Option<Seq<u8>>;
+
+impl Cfb {
+    #[verifier::external_body]
+    pub fn get_stream<R: Read + Seek>(&mut self, name: &str, r: &mut R) -> (res: Result<Vec<u8>, CfbError>)
+        ensures
+            match cfb_stream(*old(self), *old(r), name@) { Some(s) => res is Ok && res->Ok_0@ == s, None => res is Err },
+            forall|n: Seq<char>| cfb_stream(*final(self), *final(r), n) == cfb_stream(*old(self), *old(r), n),
+    { unimplemented!() }
+}
+impl XlsEncoding {
+    #[verifier::external_body]
+    pub fn from_codepage(codepage: u16) -> (res: Result<XlsEncoding, CfbError>)
+        ensures match codepage_enc(codepage as int) { Some(e) => res == Ok::<XlsEncoding, CfbError>(e), None => res is Err },
+    { unimplemented!() }
+}
+
+pub open spec fn ret<T>(res: Result<T, XlsError>, spec: Option<T>) -> bool {
+    match spec { Some(x) => res == Ok::<T, XlsError>(x), None => not_password(res) }
+}
+
+#[verifier::external_body] fn parse_bof(r: &mut Record<'_>) -> (res: Result<Bof, XlsError>)
+    ensures match bof_of(old(r).v()) { Some(b) => res is Ok && res->Ok_0.biff == b, None => not_password(res) },
+{ unimplemented!() }
+#[verifier::external_body] fn parse_sheet_metadata(r: &mut Record<'_>, encoding: &XlsEncoding, biff: Biff) -> (res: Result<(usize, Sheet), XlsError>)
+    ensures ret(res, sheet_of(old(r).v(), *encoding, biff)),
+{ unimplemented!() }
+#[verifier::external_body] fn parse_number(r: &[u8], formats: &[CellFormat], is_1904: bool) -> (res: Result<Cell<Data>, XlsError>)
+    ensures ret(res, number_cell(r@, formats@, is_1904)),
+{ unimplemented!() }
+#[verifier::external_body] fn parse_bool_err(r: &[u8]) -> (res: Result<Cell<Data>, XlsError>)
+    ensures ret(res, boolerr_cell(r@)),
+{ unimplemented!() }
+#[verifier::external_body] fn parse_rk(r: &[u8], formats: &[CellFormat], is_1904: bool) -> (res: Result<Cell<Data>, XlsError>)
+    ensures ret(res, rk_cell(r@, formats@, is_1904)),
+{ unimplemented!() }
+
+/// [MS-XLS] 2.4.168 MergeCells: cmcs (2 bytes), then cmcs Ref8 structures; 2.5.209 Ref8: rwFirst, rwLast, colFirst, colLast (2 bytes each)
+pub open spec fn u16_at(r: Seq<u8>, o: int) -> int { r[o] as int + 256 * (r[o + 1] as int) }
+pub open spec fn ref8_at(r: Seq<u8>, o: int) -> Dimensions {
+    Dimensions { start: (u16_at(r, o) as u32, u16_at(r, o + 4) as u32), end: (u16_at(r, o + 2) as u32, u16_at(r, o + 6) as u32) }
+}
+pub open spec fn merge_cmcs(r: Seq<u8>) -> int { u16_at(r, 0) }
+/// a record body holds its declared regions ([MS-XLS] 2.1.4: a record body is at most 65535 bytes)
+pub open spec fn merge_wf(r: Seq<u8>) -> bool { r.len() >= 2 && r.len() >= 2 + 8 * merge_cmcs(r) && r.len() <= 65535 }
+pub open spec fn merge_regions(r: Seq<u8>) -> Seq<Dimensions> { Seq::new(merge_cmcs(r) as nat, |k: int| ref8_at(r, 2 + 8 * k)) }
+// TRUSTED: proved in unit xlsrec (C17.merge_ok, merge_count, merge_frame, merge_regions -- the same four facts, written as one equation)
+#[verifier::external_body] fn parse_merge_cells(r: &[u8], merge_cells: &mut Vec<Dimensions>) -> (res: Result<(), XlsError>)
+    ensures
+        merge_wf(r@) ==> res is Ok && final(merge_cells)@ == old(merge_cells)@ + merge_regions(r@),
+        res is Err ==> not_password(res),
+{ unimplemented!() }
+/// [MS-XLS] 2.4.175 MulRk: rw (2), colFirst (2), rgrkrec: (colLast - colFirst + 1) RkRec of 6 bytes, colLast (2)
+pub open spec fn mulrk_wf(r: Seq<u8>) -> bool {
+    r.len() >= 6 && u16_at(r, 2) <= u16_at(r, r.len() - 2) && r.len() == 6 + 6 * (u16_at(r, r.len() - 2) - u16_at(r, 2) + 1) && r.len() <= 65535
+}
+// TRUSTED: proved in unit xlsrec (C02.mulrk_ok, mulrk_count, mulrk_frame, mulrk_cells: for a well-formed record exactly the run's cells are
+// appended, `mulrk_cells` being the sequence characterised there by mulrk_cell_ok; C02.mulrk_err_frame)
+#[verifier::external_body] fn parse_mul_rk(r: &[u8], cells: &mut Vec<Cell<Data>>, formats: &[CellFormat], is_1904: bool) -> (res: Result<(), XlsError>)
+    ensures
+        mulrk_wf(r@) ==> res is Ok && final(cells)@ == old(cells)@ + mulrk_cells(r@, formats@, is_1904),
+        res is Err ==> not_password(res),
+{ unimplemented!() }
+#[verifier::external_body] fn parse_string(r: &[u8], encoding: &XlsEncoding, biff: Biff) -> (res: Result<String, XlsError>)
+    ensures ret(res, string_of(r@, *encoding, biff)),
+{ unimplemented!() }
+#[verifier::external_body] fn parse_label(r: &[u8], encoding: &XlsEncoding, biff: Biff) -> (res: Result<Option<Cell<Data>>, XlsError>)
+    ensures ret(res, label_cell(r@, *encoding, biff)),
+{ unimplemented!() }
+#[verifier::external_body] fn parse_label_sst(r: &[u8], strings: &[String]) -> (res: Result<Option<Cell<Data>>, XlsError>)
+    ensures ret(res, labelsst_cell(r@, strings@)),
+{ unimplemented!() }
+/// [MS-XLS] 2.4.90 Dimensions: the fields are unsigned 32-bit (rows) / 16-bit (columns) values
+// TRUSTED: unit xlsrec C02.dimensions_used_range / dimensions_empty_sheet: `end` is (rwMac - 1, colMac - 1) or `start`, so neither `end.0 + 1`
+// nor `end.1 + 1` can overflow u32 (rwMac, colMac are u32 / u16 fields)
+#[verifier::external_body] fn parse_dimensions(r: &[u8]) -> (res: Result<Dimensions, XlsError>)
+    ensures
+        ret(res, dims_of(r@)),
+        res matches Ok(d) ==> (d.end == d.start || (d.end.0 < u32::MAX && d.end.1 < 65535)),
+{ unimplemented!() }
+#[verifier::external_body] fn parse_sst(r: &mut Record<'_>, encoding: &XlsEncoding) -> (res: Result<Vec<String>, XlsError>)
+    ensures match sst_of(old(r).v(), *encoding) { Some(s) => res is Ok && res->Ok_0@ == s, None => not_password(res) },
+{ unimplemented!() }
+#[verifier::external_body] fn parse_xf(r: &Record<'_>) -> (res: Result<u16, XlsError>)
+    ensures ret(res, xf_of(r.v())),
+{ unimplemented!() }
+#[verifier::external_body] fn parse_format(r: &mut Record<'_>, encoding: &XlsEncoding) -> (res: Result<(u16, CellFormat), XlsError>)
+    ensures ret(res, format_of(old(r).v(), *encoding)),
+{ unimplemented!() }
+// the Lbl (defined name) record is read in place; the decoded name is not pinned down by this unit
+#[verifier::external_body] fn read_unicode_string_no_cch(encoding: &XlsEncoding, buf: &[u8], len: &usize, s: &mut String)
+    requires buf@.len() > *len,
+{ unimplemented!() }
+#[verifier::external_body] fn parse_defined_names(rgce: &[u8]) -> (res: Result<(Option<usize>, String), XlsError>)
+    ensures ret(res, defined_name_of(rgce@)),
+{ unimplemented!() }
+#[verifier::external_body] fn parse_formula(rgce: &[u8], sheets: &[String], names: &[(String, String)], xtis: &[Xti], encoding: &XlsEncoding) -> (res: Result<String, XlsError>)
+    ensures ret(res, formula_text(rgce@, sviews(sheets@), names@, xtis@, *encoding)),
+{ unimplemented!() }
+#[verifier::external_body] fn parse_formula_value(r: &[u8]) -> (res: Result<Option<Data>, XlsError>)
+    ensures ret(res, formula_value(r@)),
+{ unimplemented!() }
+#[verifier::external_body] pub fn builtin_format_by_code(code: u16) -> (r: CellFormat)
+    ensures r == builtin_fmt(code),
+{ unimplemented!() }
+
+impl<T: CellType> Cell<T> {
+    pub closed spec fn p(&self) -> (u32, u32) { self.pos }
+    pub closed spec fn val(&self) -> T { self.val }
+    pub closed spec fn mk(position: (u32, u32), value: T) -> Cell<T> { Cell { pos: position, val: value } }
+    // TRUSTED: proved in units xlsrec / range (C02.cell_new, C05.cell_new): two field moves
+    #[verifier::external_body] pub fn new(position: (u32, u32), value: T) -> (c: Cell<T>)
+        ensures c == Cell::mk(position, value),
+    { unimplemented!() }
+}
+/// documented precondition of from_sparse ("cells: sorted by row"), as far as the code relies on it: first/last row are min/max
+/// (same text as in units range / lazyrange)
+pub closed spec fn rows_sorted<T: CellType>(cs: Seq<Cell<T>>) -> bool {
+    forall|i: int| 0 <= i < cs.len() ==> cs[0].pos.0 <= (#[trigger] cs[i]).pos.0 <= cs[cs.len() - 1].pos.0
+}
+/// the range `Range::from_sparse` builds from these cells
+// TRUSTED: unit range (C05.sparse_*): for row-sorted cells, empty iff no cells; else bounds == tight bounding box, at(p) == value of the
+// last cell at p, default elsewhere
+pub uninterp spec fn sparse_range<T: CellType>(cells: Seq<Cell<T>>) -> Range<T>;
+impl<T: CellType> Range<T> {
+    #[verifier::external_body] pub fn from_sparse(cells: Vec<Cell<T>>) -> (r: Range<T>)
+        requires
+            //# C06.from_sparse_rows_sorted
+            rows_sorted(cells@),
+        ensures r == sparse_range(cells@),
+    { unimplemented!() }
+}
+
+// =====================================================================================================================
+// Meaning of the workbook-globals substream ([MS-XLS] 2.1.7.20.3)
+// =====================================================================================================================
+pub struct GS {
+    pub enc: XlsEncoding,                 // code page in force (CodePage 0x0042, unless forced by the option)
+    pub biff: Biff,                       // BIFF version in force (BOF 0x0809)
+    pub sheets: Seq<(usize, Sheet)>,      // BoundSheet8 0x0085, in stream order: (lbPlyPos, sheet)
+    pub fmts: Map<u16, CellFormat>,       // Format 0x041E: ifmt -> class of the format string
+    pub xfs: Seq<u16>,                    // XF 0x00E0, in stream order: ifmt
+    pub strings: Seq<String>,             // SST 0x00FC
+}
+pub open spec fn g_step(st: GS, v: RecV, forced: Option<u16>) -> GS {
+    if v.typ == 0x0042 && forced is None {
+        match codepage_enc(le16(v.data)) { Some(e) => GS { enc: e, ..st }, None => st }
+    } else if v.typ == 0x041E {
+        match format_of(v, st.enc) { Some(f) => GS { fmts: st.fmts.insert(f.0, f.1), ..st }, None => st }
+    } else if v.typ == 0x00E0 {
+        match xf_of(v) { Some(x) => GS { xfs: st.xfs.push(x), ..st }, None => st }
+    } else if v.typ == 0x0085 {
+        match sheet_of(v, st.enc, st.biff) { Some(s) => GS { sheets: st.sheets.push(s), ..st }, None => st }
+    } else if v.typ == 0x0809 {
+        match bof_of(v) { Some(b) => GS { biff: b, ..st }, None => st }
+    } else if v.typ == 0x00FC {
+        match sst_of(v, st.enc) { Some(s) => GS { strings: s, ..st }, None => st }
+    } else {
+        st
+    }
+}
+pub open spec fn g_fold(rs: Seq<RecV>, g0: GS, forced: Option<u16>) -> GS
+    decreases rs.len()
+{
+    if rs.len() == 0 { g0 } else { g_step(g_fold(rs.drop_last(), g0, forced), rs.last(), forced) }
+}
+/// [MS-XLS] 2.4.77 Date1904: f1904DateSystem (2 bytes): 0 = 1900 date system, 1 = 1904 date system (other values are not defined)
+pub open spec fn is_date1904(v: RecV) -> bool { v.typ == 0x0022 }
+pub open spec fn d1904_legal(rs: Seq<RecV>) -> bool { forall|i: int| 0 <= i < rs.len() && is_date1904(#[trigger] rs[i]) ==> le16(rs[i].data) <= 1 }
+pub open spec fn has_1904(rs: Seq<RecV>) -> bool { exists|i: int| 0 <= i < rs.len() && is_date1904(#[trigger] rs[i]) && le16(rs[i].data) == 1 }
+
+/// [MS-XLS] 2.1.7.20.3 Globals substream: BOF [WriteProtect] [FilePass] ... : records that may precede FILEPASS
+pub open spec fn before_filepass_ok(v: RecV) -> bool { (v.typ == 0x0809 && bof_of(v) is Some) || v.typ == 0x0086 }
+/// the substream carries a FILEPASS record (0x002F, [MS-XLS] 2.4.117 -- of any encryption type and any length) at a legal position
+pub open spec fn fp(rs: Seq<RecV>) -> bool
+    decreases rs.len()
+{
+    if rs.len() == 0 { false } else if rs[0].typ == 0x002F { true } else if before_filepass_ok(rs[0]) { fp(rs.skip(1)) } else { false }
+}
+/// a FILEPASS record occurs somewhere
+pub open spec fn any_fp(rs: Seq<RecV>) -> bool { exists|i: int| 0 <= i < rs.len() && (#[trigger] rs[i]).typ == 0x002F }
+
+pub open spec fn names_of(s: Seq<(usize, Sheet)>) -> Seq<(usize, String)> { Seq::new(s.len(), |i: int| (s[i].0, s[i].1.name)) }
+pub open spec fn sheets_of(s: Seq<(usize, Sheet)>) -> Seq<Sheet> { Seq::new(s.len(), |i: int| s[i].1) }
+/// the format of an XF: the custom FORMAT record with its ifmt if there is one, else the built-in format of that number
+pub open spec fn resolve_fmt(fmts: Map<u16, CellFormat>, ifmt: u16) -> CellFormat { if fmts.contains_key(ifmt) { fmts[ifmt] } else { builtin_fmt(ifmt) } }
+pub open spec fn resolve_all(fmts: Map<u16, CellFormat>, xfs: Seq<u16>) -> Seq<CellFormat> { Seq::new(xfs.len(), |i: int| resolve_fmt(fmts, xfs[i])) }
+
+// =====================================================================================================================
+// Meaning of a sheet substream: the dispatch table ([MS-XLS] 2.1.7.20.5 Worksheet substream; record ids 2.3.1)
+// =====================================================================================================================
+/// what the cell walkers are given: the workbook's XF-derived format table, date system, SST, code page, BIFF version
+pub struct CCtx { pub formats: Seq<CellFormat>, pub is_1904: bool, pub strings: Seq<String>, pub enc: XlsEncoding, pub biff: Biff }
+/// what the formula renderer is given: sheet names (BoundSheet8 order), defined names, XTI table, code page
+pub struct FCtx { pub names: Seq<Seq<char>>, pub dn: Seq<(String, String)>, pub xtis: Seq<Xti>, pub enc: XlsEncoding }
+/// a formula: its cell and, when the token stream can be rendered, its text
+pub struct FAbs { pub pos: (u32, u32), pub text: Option<String> }
+
+/// [MS-XLS] 2.4.127 Formula: cell (rw 2, col 2, ixfe 2), val FormulaValue (8 bytes at 6), flags (2), chn (4), formula CellParsedFormula (at 20)
+pub open spec fn is_formula(v: RecV) -> bool { v.typ == 0x0006 && v.data.len() >= 20 }
+pub open spec fn formula_pos(d: Seq<u8>) -> (u32, u32) { (le16(d) as u32, le16(d.skip(2)) as u32) }
+/// cell of the last FORMULA record (the cell a following STRING record 0x0207 belongs to, [MS-XLS] 2.4.268)
+pub open spec fn fmla_pos_of(rs: Seq<RecV>) -> (u32, u32)
+    decreases rs.len()
+{
+    if rs.len() == 0 { (0u32, 0u32) } else if is_formula(rs.last()) { formula_pos(rs.last().data) } else { fmla_pos_of(rs.drop_last()) }
+}
+/// the cells one record contributes (`fpos`: cell of the preceding FORMULA). Unknown record ids contribute nothing.
+pub open spec fn contrib(v: RecV, fpos: (u32, u32), cc: CCtx) -> Seq<Cell<Data>> {
+    let d = v.data;
+    if v.typ == 0x0203 { opt_seq(number_cell(d, cc.formats, cc.is_1904)) }                                       // NUMBER
+    else if v.typ == 0x0204 { match label_cell(d, cc.enc, cc.biff) { Some(o) => opt_seq(o), None => Seq::empty() } }     // LABEL
+    else if v.typ == 0x0205 { opt_seq(boolerr_cell(d)) }                                                          // BOOLERR
+    else if v.typ == 0x0207 { match string_of(d, cc.enc, cc.biff) { Some(s) => seq![Cell::mk(fpos, Data::String(s))], None => Seq::empty() } }  // STRING
+    else if v.typ == 0x027E { opt_seq(rk_cell(d, cc.formats, cc.is_1904)) }                                       // RK
+    else if v.typ == 0x00FD { match labelsst_cell(d, cc.strings) { Some(o) => opt_seq(o), None => Seq::empty() } }       // LABELSST
+    else if v.typ == 0x00BD { mulrk_cells(d, cc.formats, cc.is_1904) }                                            // MULRK
+    else if is_formula(v) { match formula_value(d.subrange(6, 14)) { Some(Some(val)) => seq![Cell::mk(formula_pos(d), val)], _ => Seq::empty() } }  // FORMULA: cached value
+    else { Seq::empty() }
+}
+/// the cells of a sheet substream: concatenation, in record order, of each record's contribution
+pub open spec fn cells_of(rs: Seq<RecV>, cc: CCtx) -> Seq<Cell<Data>>
+    decreases rs.len()
+{
+    if rs.len() == 0 { Seq::empty() } else { cells_of(rs.drop_last(), cc) + contrib(rs.last(), fmla_pos_of(rs.drop_last()), cc) }
+}
+/// the formulas of a sheet substream: one per FORMULA record, at the record's cell, text = rendering of its token stream
+pub open spec fn formulas_of(rs: Seq<RecV>, fc: FCtx) -> Seq<FAbs>
+    decreases rs.len()
+{
+    if rs.len() == 0 { Seq::empty() }
+    else if is_formula(rs.last()) {
+        formulas_of(rs.drop_last(), fc).push(FAbs { pos: formula_pos(rs.last().data), text: formula_text(rs.last().data.skip(20), fc.names, fc.dn, fc.xtis, fc.enc) })
+    } else { formulas_of(rs.drop_last(), fc) }
+}
+/// the merged regions of a sheet substream: concatenation over ALL its MergeCells records (0x00E5; each holds at most 1026 regions), in order
+pub open spec fn merges_of(rs: Seq<RecV>) -> Seq<Dimensions>
+    decreases rs.len()
+{
+    if rs.len() == 0 { Seq::empty() } else if rs.last().typ == 0x00E5 { merges_of(rs.drop_last()) + merge_regions(rs.last().data) } else { merges_of(rs.drop_last()) }
+}
+/// side conditions under which the walkers' contracts (unit xlsrec) say what is appended
+pub open spec fn mulrk_legal(rs: Seq<RecV>) -> bool { forall|i: int| 0 <= i < rs.len() && (#[trigger] rs[i]).typ == 0x00BD ==> mulrk_wf(rs[i].data) }
+pub open spec fn merge_legal(rs: Seq<RecV>) -> bool { forall|i: int| 0 <= i < rs.len() && (#[trigger] rs[i]).typ == 0x00E5 ==> merge_wf(rs[i].data) }
+proof fn lemma_legal_push(rs: Seq<RecV>, v: RecV)
+    ensures
+        merge_legal(rs.push(v)) == (merge_legal(rs) && (v.typ == 0x00E5 ==> merge_wf(v.data))),
+        mulrk_legal(rs.push(v)) == (mulrk_legal(rs) && (v.typ == 0x00BD ==> mulrk_wf(v.data))),
+        d1904_legal(rs.push(v)) == (d1904_legal(rs) && (is_date1904(v) ==> le16(v.data) <= 1)),
+        has_1904(rs.push(v)) == (has_1904(rs) || (is_date1904(v) && le16(v.data) == 1)),
+{
+    let p = rs.push(v);
+    assert(p[rs.len() as int] == v);
+    assert forall|i: int| 0 <= i < rs.len() implies #[trigger] p[i] == rs[i] by {}
+    if merge_legal(p) { assert forall|i: int| 0 <= i < rs.len() && (#[trigger] rs[i]).typ == 0x00E5 implies merge_wf(rs[i].data) by { assert(p[i] == rs[i]); } }
+    if mulrk_legal(p) { assert forall|i: int| 0 <= i < rs.len() && (#[trigger] rs[i]).typ == 0x00BD implies mulrk_wf(rs[i].data) by { assert(p[i] == rs[i]); } }
+    if d1904_legal(p) { assert forall|i: int| 0 <= i < rs.len() && is_date1904(#[trigger] rs[i]) implies le16(rs[i].data) <= 1 by { assert(p[i] == rs[i]); } }
+    if has_1904(rs) {
+        let i = choose|i: int| 0 <= i < rs.len() && is_date1904(#[trigger] rs[i]) && le16(rs[i].data) == 1;
+        assert(p[i] == rs[i]);
+    }
+    if has_1904(p) {
+        let i = choose|i: int| 0 <= i < p.len() && is_date1904(#[trigger] p[i]) && le16(p[i].data) == 1;
+        if i < rs.len() { assert(p[i] == rs[i]); }
+    }
+}
+/// the formula cells `fs` are the formulas `abs`: same cells in the same order, and the text wherever the tokens can be rendered
+pub open spec fn fm(fs: Seq<Cell<String>>, abs: Seq<FAbs>) -> bool {
+    fs.len() == abs.len() && forall|k: int| 0 <= k < fs.len() ==> (#[trigger] fs[k]).p() == abs[k].pos && (abs[k].text matches Some(t) ==> fs[k].val() == t)
+}
+
+/// the substream a BoundSheet8 position points to ([MS-XLS] 2.4.28 lbPlyPos: stream position of the sheet's BOF record)
+pub open spec fn sub_at(stream: Seq<u8>, pos: usize) -> Seq<u8> { if pos <= stream.len() { stream.skip(pos as int) } else { Seq::empty() } }
+/// which substream is stored under which sheet name (a later BoundSheet8 with the same name replaces an earlier one)
+pub open spec fn model(list: Seq<(usize, String)>, stream: Seq<u8>) -> Map<String, Seq<u8>>
+    decreases list.len()
+{
+    if list.len() == 0 { Map::empty() } else { model(list.drop_last(), stream).insert(list.last().1, sub_at(stream, list.last().0)) }
+}
+spec fn sheets_dom(m: Map<String, SheetData>, list: Seq<(usize, String)>, stream: Seq<u8>) -> bool {
+    m.dom() =~= model(list, stream).dom()
+}
+/// C17: every sheet's merged regions are those of ITS substream
+spec fn sheets_merges(m: Map<String, SheetData>, list: Seq<(usize, String)>, stream: Seq<u8>) -> bool {
+    forall|n: String| #[trigger] model(list, stream).contains_key(n) && merge_legal(recs(model(list, stream)[n])) ==>
+        m[n].merge_cells@ == merges_of(recs(model(list, stream)[n]))
+}
+/// C02: every sheet's range is from_sparse of the cells of ITS substream
+spec fn sheets_cells(m: Map<String, SheetData>, list: Seq<(usize, String)>, stream: Seq<u8>, cc: CCtx) -> bool {
+    forall|n: String| #[trigger] model(list, stream).contains_key(n) && mulrk_legal(recs(model(list, stream)[n])) ==>
+        m[n].range == sparse_range(cells_of(recs(model(list, stream)[n]), cc))
+}
+/// C14: every sheet's formula range is from_sparse of the formulas of ITS substream
+spec fn sheets_formulas(m: Map<String, SheetData>, list: Seq<(usize, String)>, stream: Seq<u8>, fc: FCtx) -> bool {
+    forall|n: String| #[trigger] model(list, stream).contains_key(n) ==>
+        exists|fs: Seq<Cell<String>>| fm(fs, formulas_of(recs(model(list, stream)[n]), fc)) && m[n].formula == #[trigger] sparse_range(fs)
+}
+proof fn lemma_model_step(list: Seq<(usize, String)>, k: int, stream: Seq<u8>)
+    requires 0 <= k < list.len(),
+    ensures model(list.take(k + 1), stream) == model(list.take(k), stream).insert(list[k].1, sub_at(stream, list[k].0)),
+{
+    assert(list.take(k + 1).drop_last() =~= list.take(k));
+    assert(list.take(k + 1).last() == list[k]);
+}
+
+/// the stream [MS-XLS] 2.1.2 calls the Workbook stream: named "Workbook" (BIFF8), else "Book" (BIFF5)
+pub open spec fn wb_stream<R>(cfb: Cfb, reader: R) -> Option<Seq<u8>> {
+    match cfb_stream(cfb, reader, "Workbook"@) { Some(s) => Some(s), None => cfb_stream(cfb, reader, "Book"@) }
+}
+
+/// the code page the reader starts with (the `force_codepage` option, else 1200 = UTF-16LE, the BIFF8 default) is one the decoder knows
+pub open spec fn codepage_known(forced: Option<u16>) -> bool {
+    codepage_enc((match forced { Some(c) => c, None => 1200u16 }) as int) is Some
+}
+
+/// the meaning of the globals substream of the workbook stream `s` under the `force_codepage` option
+spec fn g_init(forced: Option<u16>) -> GS {
+    GS { enc: codepage_enc((match forced { Some(c) => c, None => 1200u16 }) as int)->Some_0, biff: Biff::Biff8, sheets: Seq::empty(), fmts: Map::empty(), xfs: Seq::empty(), strings: Seq::empty() }
+}
+spec fn g_of(s: Seq<u8>, forced: Option<u16>) -> GS { g_fold(recs(s), g_init(forced), forced) }
+
 //@@ impl src/xls.rs Xls nth=1
+#[verifier::loop_isolation(false)]
+#[verifier::allow_complex_invariants]
 //@@ fn src/xls.rs Xls::parse_workbook props=C02,C16,C17,C20,C14 entry ret=res r4
 //@@ r6 0
 //@@ r6 2
-//@@ loop 0
-                invariant true,
-                decreases __it0.s().len(),
-//@@ loop 1
-                invariant true,
-//@@ loop 2
-                invariant true,
-                decreases __it2.s().len(),
 //@@ replace /let stream = (cfb\s*\.get_stream\([^;]*?\))\s*\.or_else\(\|_\|\s*([^;]*)\)\?;/ Verus rejects closures that capture `&mut` variables (cfb, reader); `a.or_else(|_| b)` is by definition `match a { Ok(v) => Ok(v), Err(_) => b }` (core::result)
 let stream = (match \g<1> { Ok(__v) => Ok(__v), Err(_) => \g<2> })?;
+//@@ sig
+    ensures
+        //# C20.filepass_is_password_error
+        wb_stream(cfb, reader) matches Some(s) && fp(recs(s)) && codepage_known(old(self).options.force_codepage) ==> res matches Err(XlsError::Password),
+        //# C20.password_only_if_filepass
+        res matches Err(XlsError::Password) ==> wb_stream(cfb, reader) matches Some(s) && any_fp(recs(s)),
+        //# C16.workbook_stream_missing_is_error
+        wb_stream(cfb, reader) is None ==> res is Err,
+        //# C17.merge_regions_per_sheet
+        res is Ok ==> (wb_stream(cfb, reader) matches Some(s) && sheets_merges(final(self).sheets@, names_of(g_of(s, old(self).options.force_codepage).sheets), s)),
+//@@ body
+    broadcast use axiom_from_cfb;
+//@@ before /let mut sheet_names = /
+    let ghost s0 = stream@;
+    proof { assert(wb_stream(cfb, reader) == Some(s0)); }
+//@@ before /\{\s*let wb = /
+    let ghost forced = self.options.force_codepage;
+    let ghost g0 = GS { enc: encoding, biff: Biff::Biff8, sheets: Seq::empty(), fmts: Map::empty(), xfs: Seq::empty(), strings: Seq::empty() };
+    let ghost ms0 = self.metadata.sheets@;
+    let ghost d0 = self.is_1904;
+    let ghost mut done: Seq<RecV> = Seq::empty();
+    let ghost mut cur: Seq<u8> = s0;
+//@@ loop 0
+                invariant_except_break
+                    recs(s0) == done + recs(__it0.s()),
+                    //# C20.filepass_is_password_error
+                    fp(recs(s0)) ==> fp(recs(__it0.s())),
+                invariant
+                    cur == __it0.s(),
+                    self.options.force_codepage == forced,
+                ensures
+                    recs(s0) == done,
+                    !fp(recs(s0)),
+                decreases __it0.s().len(),
+//@@ after /let mut r = record\?;/
+                let ghost v = r.v();
+                let ghost done_in = done;
+                proof {
+                    lemma_recs_step(cur);
+                    if v.typ != 0x000A {
+                        done = done.push(v);
+                        assert(recs(s0) =~= done + recs(__it0.s()));
+                        assert(done.drop_last() =~= done_in);
+                        assert(recs(s0)[done.len() - 1] == v);
+                        assert(recs(cur)[0] == v);
+                        assert(recs(cur).skip(1) =~= recs(__it0.s()));
+                    }
+                    cur = __it0.s();
+                }
+//@@ before /for \(pos, name\) in /
+        let ghost names0 = sheet_names@;
+        let ghost cc = CCtx { formats: self.formats@, is_1904: self.is_1904, strings: strings@, enc: encoding, biff: biff };
+        let ghost fc = FCtx { names: sviews(fmla_sheet_names@), dn: defined_names@, xtis: xtis@, enc: encoding };
+//@@ loop 1 it
+                invariant
+                    it.seq() == names0,
+                    sheets_dom(sheets@, names0.take(it.index@ as int), s0),
+                    //# C17.merge_regions_stored_under_sheet_name
+                    sheets_merges(sheets@, names0.take(it.index@ as int), s0),
+                    //# C02.cells_stored_under_sheet_name
+                    sheets_cells(sheets@, names0.take(it.index@ as int), s0, cc),
+                    //# C14.formulas_stored_under_sheet_name
+                    sheets_formulas(sheets@, names0.take(it.index@ as int), s0, fc),
+//@@ before /let mut cells = Vec::new/
+            let ghost k = it.index@ as int;
+            let ghost sub = sh@;
+            let ghost mut sdone: Seq<RecV> = Seq::empty();
+            let ghost mut scur: Seq<u8> = sub;
+            proof { assert(names0[k] == (pos, name)); assert(sub == sub_at(s0, pos)); }
+//@@ loop 2
+                invariant_except_break
+                    recs(sub) == sdone + recs(__it2.s()),
+                invariant
+                    scur == __it2.s(),
+                    //# C17.merge_regions_appended
+                    merge_legal(sdone) ==> merge_cells@ == merges_of(sdone),
+                    //# C02.dispatch_cells
+                    mulrk_legal(sdone) ==> cells@ == cells_of(sdone, cc),
+                    //# C02.formula_string_position
+                    fmla_pos == fmla_pos_of(sdone),
+                    //# C14.formulas_at_cells
+                    fm(formulas@, formulas_of(sdone, fc)),
+                ensures
+                    recs(sub) == sdone,
+                decreases __it2.s().len(),
+//@@ after /let r = record\?;/
+                let ghost v = r.v();
+                let ghost sdone_in = sdone;
+                let ghost cells_in = cells@;
+                proof {
+                    lemma_recs_step(scur);
+                    if v.typ != 0x000A {
+                        sdone = sdone.push(v);
+                        assert(recs(sub) =~= sdone + recs(__it2.s()));
+                        assert(sdone.drop_last() =~= sdone_in);
+                        lemma_legal_push(sdone_in, v);
+                    }
+                    scur = __it2.s();
+                    axiom_option_items::<Cell<Data>>(label_cell(v.data, cc.enc, cc.biff)->Some_0);
+                    axiom_option_items::<Cell<Data>>(labelsst_cell(v.data, cc.strings)->Some_0);
+                }
+//@@ before /sheets\.insert\(/
+            proof {
+                axiom_string_obeys_cmp();
+                lemma_model_step(names0, k, s0);
+                assert(fm(formulas@, formulas_of(recs(sub), fc)));
+            }
+            let ghost sheets_in = sheets@;
+            let ghost fs_k = formulas@;
+//@@ after /sheets\.insert\([^;]*;/
+            proof {
+                let m0 = model(names0.take(k), s0);
+                let m1 = model(names0.take(k + 1), s0);
+                assert(m1 == m0.insert(name, sub));
+                assert(sheets@ == sheets_in.insert(name, sheets@[name]));
+                assert(sheets@[name].formula == sparse_range(fs_k));
+                assert forall|n: String| #[trigger] m1.contains_key(n) implies
+                    exists|fs: Seq<Cell<String>>| fm(fs, formulas_of(recs(m1[n]), fc)) && sheets@[n].formula == #[trigger] sparse_range(fs) by {
+                    if n == name { assert(fm(fs_k, formulas_of(recs(m1[n]), fc)) && sheets@[n].formula == sparse_range(fs_k)); }
+                    else { assert(m0.contains_key(n)); assert(sheets@[n] == sheets_in[n]); }
+                }
+                assert forall|n: String| #[trigger] m1.contains_key(n) && merge_legal(recs(m1[n])) implies sheets@[n].merge_cells@ == merges_of(recs(m1[n])) by {
+                    if n != name { assert(m0.contains_key(n)); assert(sheets@[n] == sheets_in[n]); }
+                }
+                assert forall|n: String| #[trigger] m1.contains_key(n) && mulrk_legal(recs(m1[n])) implies sheets@[n].range == sparse_range(cells_of(recs(m1[n]), cc)) by {
+                    if n != name { assert(m0.contains_key(n)); assert(sheets@[n] == sheets_in[n]); }
+                }
+            }
 //@@ end
 //@@ endimpl
 
